@@ -122,7 +122,7 @@ def guards(fn, bb, assumed=False):
         if is_log_pred(p):
             continue
         for q in expand_pred(fn, p):
-            if not is_log_pred(q) and all((show(q.tree), q.val) != (show(x.tree), x.val) for x in g):
+            if not is_log_pred(q) and all((q.tree, q.val) != (x.tree, x.val) for x in g):
                 g.append(q)
     if assumed:
         g += [p for p in assumed_sig(fn, bb) if not is_log_pred(p)]
